@@ -37,7 +37,7 @@ RULE = ("history = sequence of 1..3 steps over one graph, >=1 step a torchjd cal
         "all chunks); tasks that list NO parameter (empty tasks_params entry: the head's parameter is not listed, or "
         "is frozen = does not require grad) with or without saved tensors in the head; extra probe agf = "
         "autograd.grad(loss_i, features) (works for parameter-free heads); chunk sizes up to 3. Variants of the "
-        "backward programs: dead outputs (multiplied by 0.0). Parameter lists of the torchjd calls are given as list "
+        "backward programs: dead outputs (multiplied by 0.0); a zero-element tensor with a private graph among the tensors, then probed alone. Parameter lists of the torchjd calls are given as list "
         "/ tuple / one-shot iterator / generator (field cont). "
         "distinct = (family, template, variant, history); non-trivial = a "
         "torchjd step is followed by another step (its effect on the graph is observed)")
@@ -192,6 +192,16 @@ def cases(tier, seed, focus=None):
                      {"op": r2.choice(["ag", "tb"]), "t": probe_t, "r": r2.random() < 0.5}]
                 out.append({"fam": "bw", "tpl": tpl, "steps": h, "agg": r2.choice(AGGS), "seed": r2.randrange(17),
                             "dtype": r2.choice(["float64", "float32"]), "cont": r2.choice(CONTAINERS)})
+    # directed: a zero-element tensor among the differentiated ones, then a probe of that tensor alone
+    for tpl in BW_TEMPLATES:
+        for k in (None, 1, 3):
+            r2 = random.Random(rng2.randrange(10**9))
+            retained = r2.random() < 0.25
+            h = [{"op": "jd", "t": r2.choice([[0, 1, 2], [2, 0], [1, 2]]), "r": retained, "k": k},
+                 {"op": r2.choice(["ag", "tb"]), "t": [2], "r": False}]
+            out.append({"fam": "bw", "tpl": tpl, "steps": h, "agg": r2.choice(AGGS), "seed": r2.randrange(17),
+                        "dtype": r2.choice(["float64", "float32"]), "cont": r2.choice(CONTAINERS),
+                        "var": {"dead": [0, 0], "empty_out": True}})
     for c in out:
         yield c
 
@@ -267,6 +277,10 @@ def build_bw(tpl, seed, dtype, var=None):
     outs = [y1, y2]
     if var:  # dead outputs: exactly zero rows of the Jacobian
         outs = [o * 0.0 if d else o for o, d in zip(outs, var["dead"])]
+    if var and var.get("empty_out"):
+        # a third tensor WITHOUT ANY ELEMENT (per-sample losses under an all-False mask) whose private graph holds saved tensors: it
+        # adds no row to the Jacobian, but torch.autograd.backward executes - and frees - its graph like any other
+        outs.append((a.exp() * a)[:0] * b.exp().sum())
     return {"outs": outs, "inputs": [a, b], "leaves": [a, b]}
 
 
